@@ -384,11 +384,17 @@ Proof.
                       = caw f V (S line + count_nl (wv w)) false (setl w (S line)) (setl w (S line) :: acc) lead).
       { destruct (isq w) eqn:Eq.
         - apply (caw_step_quoted _ _ _ _ _ _ _ _ _ Hn2 Eq).
-        - apply (caw_step_after_bs _ _ _ (mkword [bs] QN line) _ _ _ _ _ Hn2 Eq (word_ok_not_special w _ Hw Eq) eq_refl). }
-      rewrite Hstep.
+        - assert (Hx : weq (mkword [bs] QN line) [bs] = true) by reflexivity.
+          pose proof (word_ok_not_special w (S line) Hw Eq) as Hns.
+          rewrite (caw_step_after_bs f _ line (mkword [bs] QN line) acc lead _ _ _ Hn2 Eq Hns Hx).
+          reflexivity. }
+      rewrite Hstep. clear Hstep Hn2. subst V.
+      assert (Hne' : setl w (S line) :: acc <> [] \/ r <> []) by (left; discriminate).
+      assert (Hl' : S line + count_nl (wv w) = wline (setl w (S line)) + count_nl (wv w)) by reflexivity.
+      pose proof (mem_nl_cur indent w) as Hc'. fold cur' in Hc'.
+      pose proof (word_ok_weq_bs w (S line) Hw) as Hwq.
       destruct (IH f cur' (S line + count_nl (wv w)) (setl w (S line)) (setl w (S line) :: acc) (count_nl (wv w))
-                  Hok Hlines (or_introl ltac:(discriminate)) (word_ok_weq_bs w _ Hw) eq_refl
-                  (mem_nl_cur indent w) Hend Hlt') as (s' & Hc & Hs & Hn).
+                  Hok Hlines Hne' Hwq Hl' Hc' Hend Hlt') as (s' & Hc & Hs & Hn).
       exists s'. split; [|split]; try assumption.
       rewrite Hc. cbn [rev]. rewrite <- app_assoc. reflexivity.
     + (* w goes on the current line *)
@@ -408,10 +414,334 @@ Proof.
           rewrite (caw_step_same_line _ _ _ _ _ _ _ _ _ Hn2 Eq (word_ok_not_special w _ Hw Eq) Hlast Hline).
           destruct (word_ok_unq w Hw Eq) as (_ & Hb & _).
           change (is1 (setl w line) bs) with (eqs (wv w) [bs]). rewrite Hb. reflexivity. }
-      rewrite Hstep.
+      rewrite Hstep. clear Hstep Hn2. subst V.
+      assert (Hne' : setl w line :: acc <> [] \/ r <> []) by (left; discriminate).
+      assert (Hl' : line + count_nl (wv w) = wline (setl w line) + count_nl (wv w)) by reflexivity.
+      pose proof (mem_nl_cur cur w) as Hc'. fold cur' in Hc'.
+      pose proof (word_ok_weq_bs w line Hw) as Hwq.
       destruct (IH f cur' (line + count_nl (wv w)) (setl w line) (setl w line :: acc) (count_nl (wv w))
-                  Hok Hlines (or_introl ltac:(discriminate)) (word_ok_weq_bs w _ Hw) eq_refl
-                  (mem_nl_cur cur w) Hend Hlt') as (s' & Hc & Hs & Hn).
+                  Hok Hlines Hne' Hwq Hl' Hc' Hend Hlt') as (s' & Hc & Hs & Hn).
       exists s'. split; [|split]; try assumption.
       rewrite Hc. cbn [rev]. rewrite <- app_assoc. reflexivity.
 Qed.
+
+(* ---------- what may follow a value *)
+Lemma value_ends_blank : forall rest line, forallb isspace rest = true -> value_ends rest line.
+Proof. intros; left; assumption. Qed.
+Lemma value_ends_unquoted : forall blanks u tl line,
+  forallb isspace blanks = true -> unq_ok u = true -> eqs u ["#"] = false -> tail_ok tl = true ->
+  value_ends (blanks ++ u ++ tl) line.
+Proof.
+  intros blanks u tl line Hb Hu Hh Ht. right.
+  exists (mkword u QN (line + count_nl blanks)), tl, (line + count_nl blanks).
+  rewrite nw_skip_blanks by exact Hb. rewrite nw_unquoted by assumption.
+  split; [reflexivity|]. split; [reflexivity|]. unfold is1; cbn [wv]. split; [|exact Hh].
+  apply unq_ok_not_single; [exact Hu|reflexivity].
+Qed.
+Lemma value_ends_brace : forall blanks c tl line,
+  forallb isspace blanks = true -> c = "{" \/ c = "}" ->
+  value_ends (blanks ++ c :: tl) line.
+Proof.
+  intros blanks c tl line Hb Hc. right.
+  exists (mkword [c] QN (line + count_nl blanks)), tl, (line + count_nl blanks).
+  rewrite nw_skip_blanks by exact Hb. destruct Hc as [-> | ->]; repeat split.
+Qed.
+
+(* ====================================================================== *)
+(* Stage 3: the text of show_words, whatever the width *)
+
+Theorem caw_show_words : forall ws cur indent width rest txt line lead fuel,
+  forallb isspace indent = true -> count_nl indent = 0 ->
+  ws <> [] -> words_ok ws = true ->
+  wline lead = line -> weq lead [bs] = false ->
+  show_words ws cur indent width ++ rest = cur ++ txt ->
+  value_ends rest (S (endw ws cur indent width line)) ->
+  length txt < fuel ->
+  exists s', caw fuel txt line false lead [] lead
+             = Ok (relw ws cur indent width line, s', endw ws cur indent width line)
+          /\ (s' = nl :: rest \/ s' = [] /\ forallb isspace rest = true)
+          /\ nw s0 false s' (endw ws cur indent width line)
+             = nw s0 false rest (S (endw ws cur indent width line)).
+Proof.
+  intros ws cur indent width rest txt line lead fuel Hib Hinl Hne Hok Hl Hlead Htxt Hend Hlt.
+  rewrite show_words_vtail in Htxt. apply app_inv_head in Htxt. subst txt.
+  unfold words_ok in Hok. apply andb_prop in Hok as [Hok Hlines].
+  apply (caw_vtail indent width rest lead Hib Hinl ws fuel cur line lead [] 0 Hok Hlines
+           (or_intror Hne) Hlead); try assumption.
+  - rewrite Nat.add_0_r. symmetry; exact Hl.
+  - reflexivity.
+Qed.
+
+(* texts and quote styles are exactly those of the printed words *)
+Corollary caw_show_words_values : forall ws cur indent width line,
+  map noline (relw ws cur indent width line) = map noline ws.
+Proof. intros; apply relw_noline. Qed.
+
+(* ====================================================================== *)
+(* Stage 2: all words on one line *)
+
+Definition vtext (ws:list word) : str := flat_map (fun w => " " :: str_of_word w) ws.
+Fixpoint reline (line:nat) (ws:list word) : list word :=
+  match ws with [] => [] | w :: r => setl w line :: reline (line + count_nl (wv w)) r end.
+Fixpoint endline (line:nat) (ws:list word) : nat :=
+  match ws with [] => line | w :: r => endline (line + count_nl (wv w)) r end.
+
+Lemma brk_nl : forall w cur indent width, mem nl cur = true -> brk w cur indent width = false.
+Proof. intros. unfold brk. rewrite H. cbn [negb]. apply andb_false_r. Qed.
+Lemma nobreak : forall indent width rest ws cur line, mem nl cur = true ->
+  vtail ws cur indent width rest = vtext ws ++ nl :: rest
+  /\ relw ws cur indent width line = reline line ws
+  /\ endw ws cur indent width line = endline line ws.
+Proof.
+  intros indent width rest; induction ws as [|w r IH]; intros cur line Hc.
+  - repeat split.
+  - cbn [vtail relw endw]. rewrite (brk_nl w cur indent width Hc).
+    assert (Hc' : mem nl (cur ++ " " :: str_of_word w) = true) by (rewrite mem_app, Hc; reflexivity).
+    destruct (IH _ (line + count_nl (wv w)) Hc') as (H1 & H2 & H3).
+    rewrite H1, H2, H3. unfold vtext. cbn [flat_map reline endline app]. rewrite <- app_assoc.
+    repeat split.
+Qed.
+
+Theorem caw_one_line : forall ws rest line lead fuel,
+  ws <> [] -> words_ok ws = true ->
+  wline lead = line -> weq lead [bs] = false ->
+  value_ends rest (S (endline line ws)) ->
+  length (vtext ws ++ nl :: rest) < fuel ->
+  exists s', caw fuel (vtext ws ++ nl :: rest) line false lead [] lead
+             = Ok (reline line ws, s', endline line ws)
+          /\ (s' = nl :: rest \/ s' = [] /\ forallb isspace rest = true)
+          /\ nw s0 false s' (endline line ws) = nw s0 false rest (S (endline line ws)).
+Proof.
+  intros ws rest line lead fuel Hne Hok Hl Hlead Hend Hlt.
+  destruct (nobreak [] 0%Z rest ws [nl] line eq_refl) as (H1 & H2 & H3).
+  rewrite <- H1, <- H2, <- H3 in *.
+  unfold words_ok in Hok. apply andb_prop in Hok as [Hok Hlines].
+  apply (caw_vtail [] 0%Z rest lead eq_refl eq_refl ws fuel [nl] line lead [] 0 Hok Hlines
+           (or_intror Hne) Hlead); try assumption.
+  - rewrite Nat.add_0_r. symmetry; exact Hl.
+  - discriminate.
+Qed.
+
+(* ====================================================================== *)
+(* Stage 4: one definition "name = words" through collect_objects and parse *)
+
+Lemma is_cont_plain0 : forall c, is_cont c = true -> plainc s0 c = true.
+Proof. intros [[] [] [] [] [] [] [] []]; vm_compute; intros H; try reflexivity; discriminate H. Qed.
+Lemma is_start_cont : forall c, is_start c = true -> is_cont c = true.
+Proof. intros c H. unfold is_cont. rewrite H. reflexivity. Qed.
+Lemma is_start_neq : forall c d, is_start c = true -> is_start d = false -> Ascii.eqb c d = false.
+Proof.
+  intros c d Hc Hd. destruct (Ascii.eqb c d) eqn:E; [|reflexivity].
+  apply Ascii.eqb_eq in E; subst d. congruence.
+Qed.
+Lemma head_neq : forall c n d t, Ascii.eqb c d = false -> eqs (c :: n) (d :: t) = false.
+Proof. intros. cbn [eqs]. rewrite H. reflexivity. Qed.
+Lemma forallb_impl : forall {A} (P Q:A -> bool) l,
+  (forall x, P x = true -> Q x = true) -> forallb P l = true -> forallb Q l = true.
+Proof.
+  intros A P Q l H; induction l as [|a l IH]; intros Hl; [reflexivity|].
+  cbn [forallb] in *. apply andb_prop in Hl as [H1 H2]. rewrite (H _ H1), (IH H2). reflexivity.
+Qed.
+Lemma ident_shape : forall n, is_ident n = true ->
+  exists c n', n = c :: n' /\ is_start c = true /\ forallb is_cont n' = true.
+Proof.
+  intros n H. unfold is_ident in H. apply andb_prop in H as [H _].
+  destruct n as [|c n']; [discriminate|]. cbn [is_ident1] in H. apply andb_prop in H as [H1 H2].
+  exists c, n'; auto.
+Qed.
+Lemma ident_unq_ok0 : forall n, is_ident n = true -> unq_ok0 n = true.
+Proof.
+  intros n H. destruct (ident_shape n H) as (c & n' & -> & Hc & Hn).
+  unfold unq_ok0.
+  rewrite (is_start_neq c dq Hc eq_refl), (is_start_neq c sq Hc eq_refl), (is_start_neq c "#" Hc eq_refl).
+  cbn [negb andb forallb]. rewrite (is_cont_plain0 c (is_start_cont c Hc)).
+  cbn [andb]. apply (forallb_impl is_cont); [apply is_cont_plain0|exact Hn].
+Qed.
+
+Lemma nw_s0_eq : forall s line, nw s0 false ("=" :: s) line = TWord (mkword ["="] QN line) s line.
+Proof. reflexivity. Qed.
+
+(* a definition header "name =" : collect_objects hands the rest to collect_assigned_words *)
+Lemma cobj_def_step : forall o f n r5 line nid stop start prev active acc,
+  is_ident n = true -> eqs n include_w = false ->
+  cobj o (S f) (n ++ " " :: "=" :: r5) line nid stop start prev active acc
+  = do (ws, r6, l6) <- caw (S (length r5)) r5 line false (mkword n QN line) [] (mkword n QN line) ;
+    if name_reserved_def n then E "Reserved" n line else
+    if prefix_reserved n then E "Reserved" n 0 else
+    cobj o f r6 l6 (S nid) stop start line
+         (Some (adopt (Def (mkhdr n false 0 false nid line) ws [])))
+         (match active with Some d => d :: acc | None => acc end).
+Proof.
+  intros o f n r5 line nid stop start prev active acc Hid Hinc.
+  pose proof (nw_unquoted_s0 n (" " :: "=" :: r5) line (ident_unq_ok0 n Hid) eq_refl) as Hnw.
+  destruct (ident_shape n Hid) as (c & n' & En & Hc & Hn').
+  assert (Hintro : eqs n intro = false) by (subst n; apply head_neq, is_start_neq; [exact Hc|reflexivity]).
+  assert (Hrb : eqs n ["}"] = false) by (subst n; apply head_neq, is_start_neq; [exact Hc|reflexivity]).
+  assert (Hlb : eqs n ["{"] = false) by (subst n; apply head_neq, is_start_neq; [exact Hc|reflexivity]).
+  assert (Hbang : strip_bang n = (n, false)).
+  { subst n. unfold strip_bang. rewrite (is_start_neq c "!" Hc eq_refl). reflexivity. }
+  assert (Hdot : prefixb ["."] n = false).
+  { subst n. cbn [prefixb]. rewrite Ascii.eqb_sym, (is_start_neq c "." Hc eq_refl). reflexivity. }
+  cbn [cobj]. rewrite Hnw.
+  cbn [isq wq wv wline]. rewrite Hintro, Hrb, Hlb, Hbang. cbn [andb].
+  rewrite andb_false_r.
+  unfold pop_unq, pop. rewrite nw_sp, nw_s0_eq. cbn [bind isq wq wv negb].
+  change (eqs ["="] ["{"] || prefixb ["."] ["="] || prefixb ["!"; "."] ["="]) with false.
+  cbn [andb]. rewrite Hdot, Hid, Hinc. cbn [negb].
+  unfold expect_eq. cbn [wv]. change (eqs ["="] ["="]) with true. cbn [bind].
+  reflexivity.
+Qed.
+
+Lemma ident_weq_bs : forall n line, is_ident n = true -> weq (mkword n QN line) [bs] = false.
+Proof.
+  intros n line H. destruct (ident_shape n H) as (c & n' & -> & Hc & _).
+  unfold weq. cbn [isq wq wv negb andb]. apply head_neq, is_start_neq; [exact Hc|reflexivity].
+Qed.
+
+(* the definition followed by [rest]: collect_objects continues after the value with the
+   definition as the active object *)
+Theorem cobj_show_def_words : forall o f n ws indent width rest line nid stop start prev active acc,
+  is_ident n = true -> eqs n include_w = false ->
+  name_reserved_def n = false -> prefix_reserved n = false ->
+  forallb isspace indent = true -> count_nl indent = 0 ->
+  ws <> [] -> words_ok ws = true ->
+  value_ends rest (S (endw ws (n ++ s_ " =") indent width line)) ->
+  exists s', (s' = nl :: rest \/ s' = [] /\ forallb isspace rest = true)
+    /\ nw s0 false s' (endw ws (n ++ s_ " =") indent width line)
+       = nw s0 false rest (S (endw ws (n ++ s_ " =") indent width line))
+    /\ cobj o (S f) (show_words ws (n ++ s_ " =") indent width ++ rest) line nid stop start prev active acc
+       = cobj o f s' (endw ws (n ++ s_ " =") indent width line) (S nid) stop start line
+           (Some (adopt (Def (mkhdr n false 0 false nid line) (relw ws (n ++ s_ " =") indent width line) [])))
+           (match active with Some d => d :: acc | None => acc end).
+Proof.
+  intros o f n ws indent width rest line nid stop start prev active acc
+         Hid Hinc Hres Hpre Hib Hinl Hne Hok Hend.
+  set (cur := n ++ s_ " =") in *.
+  set (V := vtail ws cur indent width rest).
+  assert (HT : show_words ws cur indent width ++ rest = n ++ " " :: "=" :: V).
+  { rewrite show_words_vtail. unfold cur. rewrite <- app_assoc. reflexivity. }
+  destruct (caw_show_words ws cur indent width rest V line (mkword n QN line) (S (length V))
+              Hib Hinl Hne Hok eq_refl (ident_weq_bs n line Hid)
+              (show_words_vtail ws cur indent width rest) Hend (Nat.lt_succ_diag_r _))
+    as (s' & Hc & Hs & Hn).
+  exists s'. split; [exact Hs|]. split; [exact Hn|].
+  rewrite HT, (cobj_def_step o f n V line nid stop start prev active acc Hid Hinc).
+  rewrite Hc. cbn [bind]. rewrite Hres, Hpre. reflexivity.
+Qed.
+
+Theorem parse_show_def_words : forall o n ws indent width,
+  is_ident n = true -> eqs n include_w = false ->
+  name_reserved_def n = false -> prefix_reserved n = false ->
+  forallb isspace indent = true -> count_nl indent = 0 ->
+  ws <> [] -> words_ok ws = true ->
+  parse o (show_words ws (n ++ s_ " =") indent width)
+  = Ok [adopt (Def (mkhdr n false 0 false 1 1) (relw ws (n ++ s_ " =") indent width 1) [])].
+Proof.
+  intros o n ws indent width Hid Hinc Hres Hpre Hib Hinl Hne Hok.
+  unfold parse.
+  rewrite <- (app_nil_r (show_words ws (n ++ s_ " =") indent width)) at 2.
+  destruct (cobj_show_def_words o (S (length (show_words ws (n ++ s_ " =") indent width))) n ws indent width [] 1 1
+              false None 0 None [] Hid Hinc Hres Hpre Hib Hinl Hne Hok (value_ends_blank [] _ eq_refl))
+    as (s' & _ & Hn & Hc).
+  rewrite Hc. cbn [cobj]. rewrite Hn. cbn [nw bind rev app]. reflexivity.
+Qed.
+
+(* names without dots: the object is the definition itself *)
+Lemma eqs_sym : forall a b, eqs a b = eqs b a.
+Proof.
+  induction a as [|x a IH]; intros [|y b]; cbn [eqs]; try reflexivity.
+  rewrite Ascii.eqb_sym, IH. reflexivity.
+Qed.
+Lemma splitdot_nodot : forall n, mem "." n = false -> splitdot n = [n].
+Proof.
+  induction n as [|c n IH]; intros H; [reflexivity|].
+  cbn [mem] in H. apply orb_false_iff in H as [H1 H2].
+  cbn [splitdot]. rewrite Ascii.eqb_sym, H1, (IH H2). reflexivity.
+Qed.
+Corollary parse_show_def_words_plain : forall o n ws indent width,
+  is_ident n = true -> mem "." n = false -> eqs n include_w = false -> reserved n = false ->
+  forallb isspace indent = true -> count_nl indent = 0 ->
+  ws <> [] -> words_ok ws = true ->
+  parse o (show_words ws (n ++ s_ " =") indent width)
+  = Ok [Def (mkhdr n false 0 false 1 1) (relw ws (n ++ s_ " =") indent width 1) []].
+Proof.
+  intros o n ws indent width Hid Hdot Hinc Hres Hib Hinl Hne Hok.
+  pose proof (splitdot_nodot n Hdot) as Hsd.
+  rewrite (parse_show_def_words o n ws indent width Hid Hinc); try assumption.
+  - unfold adopt. cbn [ohdr oname]. rewrite Hsd. reflexivity.
+  - unfold name_reserved_def. rewrite Hres, Hinc, Hsd. cbn [mems existsb]. rewrite eqs_sym, Hinc. reflexivity.
+  - unfold prefix_reserved. rewrite Hsd. reflexivity.
+Qed.
+
+(* ====================================================================== *)
+Print Assumptions nw_unquoted.
+Print Assumptions nw_unquoted_s0.
+Print Assumptions caw_one_line.
+Print Assumptions caw_show_words.
+Print Assumptions cobj_show_def_words.
+Print Assumptions parse_show_def_words.
+Print Assumptions parse_show_def_words_plain.
+
+(* ---------- examples (non-vacuity): quotes, backslashes, a newline inside a word, embedded quote,
+   empty literals; wrapped at width 20 and unwrapped at width 1000 *)
+Definition ex_ws : list word :=
+  [ mkword (s_ "abc") QN 0;
+    mkword (s_ "he said ""hi""\ there") Q2 0;
+    mkword (s_ "it's") Q1 0;
+    mkword (s_ "a""b'c\") QN 0;
+    mkword (s_ "multi" ++ nl :: s_ "line\") Q3d 0;
+    mkword (s_ "x{};#") Q2 0;
+    mkword (s_ "12.5e-3") QN 0;
+    mkword [] Q1 0;
+    mkword [] Q3s 0;
+    mkword (s_ "#not_a_comment") QN 0;
+    mkword (s_ "\\") QN 0 ].
+Definition ex_cur : str := s_ "name =".
+Definition ex_lead : word := mkword (s_ "name") QN 1.
+Definition ex_run (width:Z) : res (list word * str * nat) :=
+  let txt := drop (length ex_cur) (show_words ex_ws ex_cur (spaces 6) width) in
+  caw (S (length txt)) txt 1 false ex_lead [] ex_lead.
+
+Example ex_domain : words_ok ex_ws = true.
+Proof. vm_compute. reflexivity. Qed.
+Example ex_wrapped_20 :
+  ex_run 20 = Ok (relw ex_ws ex_cur (spaces 6) 20 1, [], endw ex_ws ex_cur (spaces 6) 20 1)
+  /\ map noline (relw ex_ws ex_cur (spaces 6) 20 1) = ex_ws
+  /\ count_nl (show_words ex_ws ex_cur (spaces 6) 20) = 6.
+Proof. vm_compute. repeat split. Qed.
+Example ex_unwrapped_1000 :
+  ex_run 1000 = Ok (reline 1 ex_ws, [], endline 1 ex_ws)
+  /\ map noline (reline 1 ex_ws) = ex_ws
+  /\ count_nl (show_words ex_ws ex_cur (spaces 6) 1000) = 2.
+Proof. vm_compute. repeat split. Qed.
+Example ex_parse_20 :
+  parse [] (show_words ex_ws ex_cur (spaces 6) 20)
+  = Ok [Def (mkhdr (s_ "name") false 0 false 1 1) (relw ex_ws ex_cur (spaces 6) 20 1) []].
+Proof. vm_compute. reflexivity. Qed.
+Example ex_parse_1000 :
+  parse [] (show_words ex_ws ex_cur (spaces 6) 1000)
+  = Ok [Def (mkhdr (s_ "name") false 0 false 1 1) (reline 1 ex_ws) []].
+Proof. vm_compute. reflexivity. Qed.
+(* followed by another definition *)
+Example ex_followed :
+  value_ends (s_ "b = 1") 5.
+Proof. apply (value_ends_unquoted [] (s_ "b") (s_ " = 1")); reflexivity. Qed.
+
+(* ---------- the side conditions are needed *)
+(* the line rule: an unquoted word after a quoted word containing a newline is not read back *)
+Example ex_line_rule_needed :
+  let ws := [mkword ["a"; nl; "b"] Q2 0; mkword ["c"] QN 0] in
+  words_ok ws = false /\
+  parse [] (show_words ws (s_ "x =") (spaces 3) 79) = UErr (s_ "UnexpectedEnd") [] 0.
+Proof. vm_compute. split; reflexivity. Qed.
+(* an unquoted backslash word is printed bare and read back as a continuation marker; such a word
+   list is produced by the parser itself *)
+Example ex_backslash_word_needed :
+  let src := s_ "x = a \ \ b" in
+  let ws := [mkword ["a"] QN 1; mkword [bs] QN 1; mkword ["b"] QN 1] in
+  parse [] src = Ok [Def (mkhdr ["x"] false 0 false 1 1) ws []]
+  /\ words_ok ws = false
+  /\ show_words ws (s_ "x =") (spaces 3) 79 = s_ "x = a \ b" ++ [nl]
+  /\ parse [] (show_words ws (s_ "x =") (spaces 3) 79)
+     = Ok [Def (mkhdr ["x"] false 0 false 1 1) [mkword ["a"] QN 1; mkword ["b"] QN 1] []].
+Proof. vm_compute. repeat split. Qed.
